@@ -77,10 +77,14 @@ def loadRace (fstat : Bool) (cfg : Cfg) (fs : FS) (clock : Nat) (s : LState) (r 
     let out := loadBodyRace fstat cfg fs clock s0 r key rw
     some (({ out.1.1 with lock := out.1.1.lock - 1 }, out.1.2), out.2)
 
-/-- histories with racing replacements -/
+/-- histories with racing replacements and with modifications that set an arbitrary
+    modification time (restore from a backup, checkout of an older revision, `rsync -t`,
+    `os.utime` backwards): `HOp.write` / `HOp.touch` stamp the file with the logical clock, which
+    only grows; `writeAt` stamps it with any time, older ones included -/
 inductive HOpR where
   | plain (op : HOp)
   | loadRace (r : Req) (rw : RaceW)
+  | writeAt (loc : Loc) (content : Nat) (bad : Bool) (mtime : Nat)
   deriving DecidableEq, Repr
 
 def hstepR (fstat : Bool) (cfg : Cfg) (w : World) : HOpR → World × Option Res
@@ -92,6 +96,10 @@ def hstepR (fstat : Bool) (cfg : Cfg) (w : World) : HOpR → World × Option Res
     | some ((ls', res), some loc) =>
       ({ fs := fsSet w.fs loc (some ⟨rw.content, rw.bad, w.clock⟩), clock := w.clock + 1, ls := ls' },
        some res)
+
+  -- the clock stays above every time in use, so that `write` / `touch` keep handing out new ones
+  | .writeAt loc c b m =>
+    ({ w with fs := fsSet w.fs loc (some ⟨c, b, m⟩), clock := max w.clock (m + 1) }, none)
 
 def hrunR (fstat : Bool) (cfg : Cfg) (w : World) : List HOpR → World × List (Option Res)
   | [] => (w, [])
